@@ -299,6 +299,36 @@ func (g *Gen) generate(size int, withTest bool) ([]SrcFile, bool) {
 		}
 		_ = i
 	}
+	// mutually embedding structs (through pointers); the exported field lives in ONE member only, a third struct
+	// embeds the other member and never selects it explicitly (rule 6.5 must see through the cycle in every
+	// declaration order). These types are kept out of the statement pools so that only rule 6.5 keeps them alive.
+	nCyc := 0
+	if r.Chance(45) {
+		nCyc = 1 + r.Intn(2)
+	}
+	for c := 0; c < nCyc; c++ {
+		a, b, h := fmt.Sprintf("cy%da", c), fmt.Sprintf("cy%db", c), fmt.Sprintf("cy%dh", c)
+		g.add(-1, fmt.Sprintf("type %s struct {\n\t*%s\n\tcy%dn int\n}", a, b, c))
+		g.add(-1, fmt.Sprintf("type %s struct {\n\t*%s\n\tCy%dX int\n}", b, a, c))
+		emb := a
+		if r.Chance(30) {
+			emb = "*" + a
+		}
+		g.add(-1, fmt.Sprintf("type %s struct {\n\t%s\n}", h, emb))
+		switch r.Intn(3) {
+		case 0:
+			g.add(-1, "var _ "+h)
+		case 1:
+			g.add(-1, fmt.Sprintf("var _ = %s{}", h))
+		default:
+			g.add(-1, fmt.Sprintf("func Cy%dUse() { var x %s; _ = x }", c, h))
+		}
+		if r.Chance(25) {
+			// a three-member cycle
+			m := fmt.Sprintf("cy%dm", c)
+			g.add(-1, fmt.Sprintf("type %s struct {\n\t*%s\n\t*%s\n}", m, a, b))
+		}
+	}
 	// aliases
 	if r.Chance(50) {
 		g.add(-1, "type a0 = "+g.pick(g.structs))
@@ -562,6 +592,9 @@ func (s *stmtGen) collect() {
 	for _, n := range names {
 		switch o := sc.Lookup(n).(type) {
 		case *types.TypeName:
+			if strings.HasPrefix(n, "cy") {
+				continue // embedding cycles: referenced only through rule 6.5
+			}
 			if nt, ok := types.Unalias(o.Type()).(*types.Named); ok && nt.TypeParams().Len() > 0 && nt.TypeArgs().Len() == 0 {
 				continue // uninstantiated generic
 			}
@@ -952,4 +985,81 @@ func (s *stmtGen) stmt(depth int, unsafeOK, inTest bool) string {
 		}
 	}
 	return "_ = 0"
+}
+
+
+// DirectedPackages are small fixed packages whose declarations are permuted over ALL orders by the C17 tie.
+func DirectedPackages() map[string][]SrcFile {
+	return map[string][]SrcFile{
+		// rule 6.5 through a cycle of embedded pointers: the exported field is in edge only, holder embeds node and
+		// never selects it. In every declaration order holder.node, node and edge must be used.
+		"embedcycle": {{Name: "a.go", Src: `package p
+
+type node struct {
+	*edge
+	id int
+}
+
+type edge struct {
+	*node
+	Exported int
+}
+
+type holder struct {
+	node
+}
+
+var _ holder
+`}},
+		"embedcycle3": {{Name: "a.go", Src: `package p
+
+type n1 struct {
+	*n2
+}
+
+type n2 struct {
+	*n3
+	w int
+}
+
+type n3 struct {
+	*n1
+	Visible string
+}
+
+type keep struct {
+	*n1
+}
+
+func Use() { var k keep; _ = k }
+`}},
+		// rule 10.1 / 5.1 / 8.2 in one small package
+		"mixed": {{Name: "a.go", Src: `package p
+
+const (
+	ka = iota
+	kb
+)
+
+type src struct {
+	f int
+}
+
+type dst struct {
+	f int
+}
+
+type shape interface {
+	area() int
+}
+
+type sq struct{}
+
+func (sq) area() int { return kb }
+
+func Conv(s src) dst { return dst(s) }
+
+var _ shape = sq{}
+`}},
+	}
 }
